@@ -19,7 +19,12 @@ from engine.api import group
 from engine.sx import tmo_world as W
 
 IDS = ('Water', 'Ethanol', 'Methanol', 'Octane')
-W.preload([IDS[:3], IDS])
+# private compiled chemicals (not the shared W.thermo packages): their molecular weights are replaced by leaves
+_CH = {}
+for _n in (3, 4):
+    _c = tmo.Chemicals([W.chemical(i) for i in IDS[:_n]])
+    _c.compile()
+    _CH[_n] = _c
 
 RXN = 'thermosteam.reaction._reaction:'
 
@@ -58,7 +63,15 @@ def feed_leaves(w, nrows, n, name='f'):
 
 
 def chems(n):
-    return W.thermo(IDS[:n]).chemicals
+    return _CH[n]
+
+
+def plant_MW(w, n):
+    """Molecular weights are arbitrary positive reals (leaves): the wt <-> mol conversions are then exact in the
+    real model (float constants such as 1/18.01528 are rounded and would break exact equalities)."""
+    mw = [w.real(f'MW.{k}', lo=0., lo_strict=True) for k in range(n)]
+    chems(n).__dict__['MW'] = np.array(mw, dtype=object if w.symbolic else float)
+    return mw
 
 
 def rxn_spec(w, name, n, ph, ridx=0, rrow=None, fixed=None):
@@ -143,8 +156,7 @@ def act(rxn, vals, nrows, n):
 
 
 def MWs(n, nrows):
-    mw = [float(i) for i in chems(n).MW]
-    return mw * max(nrows, 1)
+    return list(chems(n).MW) * max(nrows, 1)
 
 
 def other_basis(b):
@@ -174,7 +186,7 @@ def add_configs(tier):
                     if tier == 'quick' and bases != 'mol+mol' and op not in ('add', 'iadd'): continue
                     if tier == 'quick' and bases == 'wt+mol' and ph: continue
                     if op in ('self', 'triple') and bases in ('mol+wt', 'wt+mol'): continue
-                    if n == 4 and op == 'triple' and ph: continue
+                    if op == 'triple' and ph and (tier == 'quick' or n == 4): continue
                     out.append({'name': f'n={n};ph={ph or "-"};basis={bases};op={op}', 'n': n, 'ph': ph, 'bases': bases, 'op': op})
     return out
 
@@ -216,6 +228,7 @@ def _parallel_expected(w, specs, Xs, bases, vals, nrows, n):
 def add(w, cfg):
     W.reset_caches()
     n, ph, op = cfg['n'], tuple(cfg['ph']), cfg['op']
+    plant_MW(w, n)
     nrows = len(ph)
     ba, bb = cfg['bases'].split('+')
     Xa, Xb = w.real('Xa'), w.real('Xb')
@@ -291,6 +304,7 @@ SUB_FUNCS = [RXN + 'Reaction.__sub__', RXN + 'Reaction.__isub__', RXN + 'Reactio
 def sub(w, cfg):
     W.reset_caches()
     n, ph, op = cfg['n'], tuple(cfg['ph']), cfg['op']
+    plant_MW(w, n)
     nrows = len(ph)
     ba, bb = cfg['bases'].split('+')
     Xa, Xb = w.real('Xa'), w.real('Xb')
@@ -363,6 +377,7 @@ SCALE_FUNCS = [RXN + 'Reaction.__mul__', RXN + 'Reaction.__rmul__', RXN + 'React
 def scale(w, cfg):
     W.reset_caches()
     n, ph, op, basis = cfg['n'], tuple(cfg['ph']), cfg['op'], cfg['basis']
+    plant_MW(w, n)
     nrows = len(ph)
     Xa = w.real('Xa')
     k = w.real('k', lo=0., lo_strict=True)
@@ -416,6 +431,7 @@ FRAME_FUNCS = [RXN + 'Reaction.copy', RXN + 'Reaction.__neg__', RXN + 'Reaction.
 def frame(w, cfg):
     W.reset_caches()
     n, ph, op, basis = cfg['n'], tuple(cfg['ph']), cfg['op'], cfg['basis']
+    plant_MW(w, n)
     nrows = len(ph)
     Xa = w.real('Xa')
     sa = rxn_spec(w, 'a', n, ph)
@@ -486,6 +502,7 @@ def backwards_configs(tier):
 def backwards(w, cfg):
     W.reset_caches()
     n, ph = cfg['n'], tuple(cfg['ph'])
+    plant_MW(w, n)
     nrows = len(ph)
     Xa = w.real('Xa')
     ridx, pidx = 0, 1
@@ -555,6 +572,7 @@ ITEM_FUNCS = [RXN + 'ReactionSet.__init__', RXN + 'ReactionSet.__getitem__', RXN
 def set_item(w, cfg):
     W.reset_caches()
     n = 3
+    plant_MW(w, n)
     ph = tuple(cfg['ph'])
     nrows = len(ph)
     cls = getattr(tmo, cfg['cls'])
@@ -614,6 +632,7 @@ SETOP_FUNCS = [RXN + 'ParallelReaction.reduce', RXN + 'ParallelReaction.__add__'
 def set_ops(w, cfg):
     W.reset_caches()
     n = 3
+    plant_MW(w, n)
     ph = tuple(cfg['ph'])
     nrows = len(ph)
     op, basis = cfg['op'], cfg['basis']
